@@ -158,7 +158,7 @@ theorem destroyRep_succ (k r : Nat) (s : State) : destroyRep (k + 1) r s =
             | some r' => killVar h r' (destroyRep k r' (dropFn r R f s)) := rfl
 
 theorem inv_err {s : State} (h : Inv s) (b : Bool) : Inv { s with err := b } :=
-  ⟨h.repAlive, h.repUniq, h.connReg, h.cbsConn, h.cbsNodup, h.parentOk, h.trkReg, h.trkEnt, h.trkNodup,
+  ⟨h.repAlive, h.repUniq, h.connReg, h.cbsConn, h.regUniq, h.cbsNodup, h.parentOk, h.trkReg, h.trkEnt, h.trkNodup,
    h.refOk, h.ownOk, h.repBound⟩
 
 theorem casc_err (s : State) : Casc s { s with err := true } :=
